@@ -96,7 +96,9 @@ class CorpusShufflingTool:
             for unit in continuum[annotator]:
                 continuum.remove(annotator, unit)
                 start_seg, end_seg = 0.0, 0.0
-                while start_seg >= end_seg:
+                # redrawn until the shifted segment is a valid one, i.e longer than the segment precision
+                # (a shorter one is refused by the continuum, after the unit has already been removed)
+                while end_seg - start_seg <= SEGMENT_PRECISION:
                     start_seg = unit.segment.start + np.random.uniform(-1, 1) * shift_max
                     end_seg = unit.segment.end + np.random.uniform(-1, 1) * shift_max
                 continuum.add(annotator, Segment(start_seg, end_seg), unit.annotation)
